@@ -328,7 +328,7 @@ class PortModel(object):
             bs = [('selw', ret, i, ('in', 'port.' + name, i), ob) if ob != UNINIT else ('selw', ret, i, ('in', 'port.' + name, i), UNINIT)
                   for i, ob in enumerate(old)]
             I.raw_store(s2, oid, off, cnt, bs)
-            s2.effect(('get', name, None))
+            s2.effect(('get', name, None, oid, s2.canon(off), cnt))
             out.append((s2, Val(rty, ret)))
         return out
 
